@@ -2106,6 +2106,49 @@ func ruleADP8(c *Ctx) []Ob {
 				}
 			}
 		}
+		// the key handed out must be a fresh slice per call: not a buffer kept in the cursor (or
+		// any other longer-lived place), which the next Item() call overwrites
+		reused := ""
+		for _, ret := range returnsOf(fn) {
+			rv, ok := returnedValue(ret, 0)
+			if !ok {
+				continue
+			}
+			var keyVals []ssa.Value
+			for _, og := range origins(rv) {
+				if l, ok := og.(*ssa.UnOp); ok && l.Op == token.MUL {
+					if al, ok := l.X.(*ssa.Alloc); ok {
+						for _, r := range realReferrers(al) {
+							if fa, ok := r.(*ssa.FieldAddr); ok {
+								if _, f, n := fieldOfAddr(fa); f == "Key" && n != nil && c.libNamedIs(n, "store", "Item") {
+									for _, rr := range realReferrers(fa) {
+										if st, ok := rr.(*ssa.Store); ok && st.Addr == ssa.Value(fa) {
+											keyVals = append(keyVals, st.Val)
+										}
+									}
+								}
+							}
+						}
+					}
+				}
+			}
+			for _, kv := range keyVals {
+				if d, shared := c.sharedSlice(kv, 0, map[ssa.Value]bool{}); shared {
+					reused = d
+				}
+				for _, og := range origins(kv) {
+					if cl, ok := og.(*ssa.Call); ok && strings.HasSuffix(calleeFullName(cl), ".Item).KeyCopy") && len(cl.Common().Args) == 2 {
+						if d, shared := c.sharedSlice(cl.Common().Args[1], 0, map[ssa.Value]bool{}); shared {
+							reused = d + " (passed to KeyCopy as the destination buffer)"
+						}
+					}
+				}
+			}
+		}
+		if bad == "" && reused != "" {
+			o.add(VIOLATED, key, relPath(c, fn.Pos()), "the key handed out lives in %s, which the next call overwrites: a key kept across Next, or passed to Tx.Delete (badger keeps the slice until Commit), later designates another entry", reused)
+			continue
+		}
 		if bad != "" {
 			o.add(VIOLATED, key, bad, "the adapter returns badger's Item.Key(), which is only valid until the iterator advances: a key kept across Next, or passed to Tx.Delete (badger keeps the slice until Commit), later designates another entry - DropIndex on badger leaves most of the index behind while bbolt removes it")
 		} else {
@@ -4092,6 +4135,326 @@ func ruleADP10(c *Ctx) []Ob {
 	}
 	if len(o.list) == 0 {
 		o.add(INFO, "badger adapter", "-", "no store.Cursor.Seek implementation calls badger's Iterator.Seek")
+	}
+	return o.list
+}
+
+// ---------------------------------------------------------------- IDX8
+
+// IDX8: the index catalog ([]index.Info of the collection record) is searched
+// by bisection only if no writer moves its entries out of order. A helper with
+// a sortedness precondition (sort.Search, slices.BinarySearch*) shared by
+// create/has/drop is wrong as soon as one of them removes an entry by moving
+// another one into the hole.
+func ruleIDX8(c *Ctx) []Ob {
+	o := newObs(c, "IDX8")
+	isCatalog := func(t types.Type) bool {
+		sl, ok := t.Underlying().(*types.Slice)
+		return ok && c.libNamedIs(sl.Elem(), "index", "Info")
+	}
+	var bisect []ssa.CallInstruction
+	var moves []ssa.Instruction
+	for _, fn := range c.LibFuncs {
+		if c.pkgRel(fn) != "" {
+			continue
+		}
+		// does this function (or its closures' parent) read the catalog?
+		touches := false
+		for _, p := range rootFunc(fn).Params {
+			if isCatalog(p.Type()) {
+				touches = true
+			}
+		}
+		for _, b := range fn.Blocks {
+			for _, in := range b.Instrs {
+				if v, ok := in.(ssa.Value); ok && isCatalog(v.Type()) {
+					touches = true
+				}
+				for _, op := range in.Operands(nil) {
+					if *op != nil && isCatalog((*op).Type()) {
+						touches = true
+					}
+				}
+			}
+		}
+		if !touches {
+			continue
+		}
+		allCalls(fn, func(ci ssa.CallInstruction) {
+			full := calleeFullName(ci)
+			if full == "sort.Search" || full == "sort.Find" || strings.HasPrefix(full, "slices.BinarySearch") || strings.HasPrefix(full, "sort.Search") {
+				bisect = append(bisect, ci)
+			}
+		})
+		for _, b := range fn.Blocks {
+			for _, in := range b.Instrs {
+				st, ok := in.(*ssa.Store)
+				if !ok {
+					continue
+				}
+				ia, ok := st.Addr.(*ssa.IndexAddr)
+				if !ok || !isCatalog(ia.X.Type()) {
+					continue
+				}
+				// s[j] = s[k]: an element moved from another position of the same slice
+				if ld, ok := st.Val.(*ssa.UnOp); ok && ld.Op == token.MUL {
+					if ia2, ok := ld.X.(*ssa.IndexAddr); ok && isCatalog(ia2.X.Type()) && ia2.Index != ia.Index {
+						moves = append(moves, st)
+					}
+				}
+			}
+		}
+	}
+	switch {
+	case len(bisect) == 0:
+		o.add(OK, "catalog lookup", "-", "the index catalog is not searched by bisection (no sortedness precondition to maintain)")
+	case len(moves) > 0:
+		o.add(VIOLATED, c.fname(bisect[0].Parent())+"/bisection over the index catalog", relPath(c, bisect[0].Pos()), "the catalog is searched by bisection, but %s moves an entry to another position at %s: after that the catalog is no longer sorted and existing indexes are not found (HasIndex false, CreateIndex succeeds twice, DropIndex fails)", c.fname(moves[0].Parent()), relPath(c, moves[0].Pos()))
+	default:
+		o.add(OK, c.fname(bisect[0].Parent())+"/bisection over the index catalog", relPath(c, bisect[0].Pos()), "no writer moves catalog entries out of order")
+	}
+	return o.list
+}
+
+// ---------------------------------------------------------------- IDX9
+
+// IDX9: Index.Add writes and Index.Remove deletes on every successful path. An
+// Add that returns nil without Tx.Set (a guard that "skips" entries it does not
+// like) leaves a document without its index entry while reporting success.
+func ruleIDX9(c *Ctx) []Ob {
+	o := newObs(c, "IDX9")
+	it := c.libType("index", "Index")
+	if it == nil {
+		o.add(UNDECIDED, "index.Index", "-", "interface not found")
+		return o.list
+	}
+	ui, _ := it.Underlying().(*types.Interface)
+	for _, spec := range []struct{ m, op string }{{"Add", "Set"}, {"Remove", "Delete"}} {
+		for i := 0; ui != nil && i < ui.NumMethods(); i++ {
+			if ui.Method(i).Name() != spec.m {
+				continue
+			}
+			for _, fn := range c.libImpls(ui.Method(i)) {
+				cut := map[*ssa.BasicBlock]bool{}
+				for _, b := range fn.Blocks {
+					for _, in := range b.Instrs {
+						if call, ok := in.(*ssa.Call); ok && c.isInvokeOf(call, "store", "Tx", spec.op) {
+							cut[b] = true
+						}
+					}
+				}
+				key := c.fname(fn) + "/Tx." + spec.op + " on every successful path"
+				if bad := c.successWithoutCut(fn, []edge2{{nil, fn.Blocks[0]}}, cut, nil); bad != "" {
+					o.add(VIOLATED, key, relPath(c, fn.Pos()), "%s is reachable without Tx.%s: the index silently misses (or keeps) the entry of a document while the operation succeeds", bad, spec.op)
+				} else {
+					o.add(OK, key, relPath(c, fn.Pos()), "every path that returns a nil error passed Tx.%s", spec.op)
+				}
+			}
+		}
+	}
+	return o.list
+}
+
+// ---------------------------------------------------------------- EMPTY2
+
+// EMPTY2: the omitempty predicate treats pointers and interfaces like
+// encoding/json does: empty exactly when nil. (A pointer to a zero value is not
+// empty: dropping it turns &0 into nil on the way back, since the decoder
+// leaves a missing key's pointer nil.)
+func ruleEMPTY2(c *Ctx) []Ob {
+	o := newObs(c, "EMPTY2")
+	found := false
+	for _, fn := range c.LibFuncs {
+		if c.pkgRel(fn) != "internal" || fn.Parent() != nil || len(fn.Params) != 1 || fn.Signature.Results().Len() != 1 {
+			continue
+		}
+		if bt, ok := fn.Signature.Results().At(0).Type().Underlying().(*types.Basic); !ok || bt.Kind() != types.Bool {
+			continue
+		}
+		if typeString(fn.Params[0].Type()) != "reflect.Value" {
+			continue
+		}
+		hasIsNil := false
+		allCalls(fn, func(ci ssa.CallInstruction) {
+			if calleeFullName(ci) == "(reflect.Value).IsNil" {
+				hasIsNil = true
+			}
+		})
+		if !hasIsNil {
+			continue
+		}
+		found = true
+		for _, kn := range []string{"Ptr", "Interface"} {
+			kv, ok := c.reflectKind(kn)
+			key := fmt.Sprintf("%s/kind %s empty iff nil", c.fname(fn), kn)
+			if !ok {
+				o.add(UNDECIDED, key, "-", "reflect.%s not found", kn)
+				continue
+			}
+			var es []edge
+			ifEdges(fn, func(cond ssa.Value, e edge) {
+				if bo, ok := cond.(*ssa.BinOp); ok && bo.Op == token.EQL && e.Branch {
+					if k, ok := constInt(bo.Y); ok && k == kv {
+						es = append(es, e)
+					}
+				}
+			})
+			if len(es) == 0 {
+				o.add(VIOLATED, key, relPath(c, fn.Pos()), "no case for reflect.%s: a nil pointer/interface would not count as empty", kn)
+				continue
+			}
+			bad := ""
+			n := 0
+			for _, ret := range returnsOf(fn) {
+				hit := false
+				for _, e := range es {
+					if e.to() == ret.Block() || e.to().Dominates(ret.Block()) {
+						hit = true
+					}
+				}
+				if !hit {
+					continue
+				}
+				n++
+				rv, ok := returnedValue(ret, 0)
+				if !ok {
+					continue
+				}
+				for _, og := range origins(rv) {
+					cl, isCall := og.(*ssa.Call)
+					if !isCall || calleeFullName(cl) != "(reflect.Value).IsNil" {
+						bad = describeValue(c, og)
+					}
+				}
+			}
+			switch {
+			case n == 0:
+				o.add(UNDECIDED, key, relPath(c, fn.Pos()), "no return tied to the case")
+			case bad != "":
+				o.add(VIOLATED, key, relPath(c, fn.Pos()), "for kind %s the verdict also depends on %s: encoding/json (which decodes the document back into the struct) treats a pointer/interface as empty only when it is nil", kn, bad)
+			default:
+				o.add(OK, key, relPath(c, fn.Pos()), "returns v.IsNil()")
+			}
+		}
+	}
+	if !found {
+		o.add(UNDECIDED, "omitempty predicate", "-", "no func(reflect.Value) bool calling IsNil in package internal")
+		return softenUndecided(o.list)
+	}
+	return o.list
+}
+
+// ---------------------------------------------------------------- PANIC4
+
+// mayBeNilMap: v may be a nil map: the nil constant, a package-level map that
+// is never assigned, the zero value of a field or variable, or the result of a
+// library function / criteria visitor one of whose results may be.
+func (c *Ctx) mayBeNilMap(v ssa.Value, depth int, seen map[ssa.Value]bool) (string, bool) {
+	if v == nil || seen[v] || depth > 6 {
+		return "", false
+	}
+	seen[v] = true
+	for _, og := range c.paramSources(v, 0) {
+		switch x := og.(type) {
+		case *ssa.Const:
+			if x.IsNil() {
+				return "the nil map", true
+			}
+		case *ssa.MakeMap:
+		case *ssa.UnOp:
+			if x.Op != token.MUL {
+				continue
+			}
+			if g, ok := x.X.(*ssa.Global); ok {
+				// a package-level map nobody assigns is nil
+				assigned := false
+				for _, fn := range c.LibFuncs {
+					for _, b := range fn.Blocks {
+						for _, in := range b.Instrs {
+							if st, ok := in.(*ssa.Store); ok && st.Addr == ssa.Value(g) {
+								if !isNilConst(st.Val) {
+									assigned = true
+								}
+							}
+						}
+					}
+				}
+				if !assigned {
+					return "the package-level map " + g.Name() + ", which is never assigned (nil)", true
+				}
+			}
+		case *ssa.TypeAssert:
+			// the asserted result of a criteria visitor: any of its Visit* results
+			if _, vis := c.visitCallOf(x.X); vis != nil {
+				if n := c.visitorTypeOf(vis); n != nil {
+					for _, m := range c.visitorMethods(n) {
+						for _, ret := range returnsOf(m) {
+							if rv, ok := returnedValue(ret, 0); ok {
+								for _, ro := range origins(rv) {
+									inner := stripIfaceOnly(ro)
+									if _, isMap := inner.Type().Underlying().(*types.Map); !isMap {
+										continue
+									}
+									if d, bad := c.mayBeNilMap(inner, depth+1, seen); bad {
+										return d + " (returned by " + c.fname(m) + ")", true
+									}
+								}
+							}
+						}
+					}
+				}
+			}
+		case *ssa.Call:
+			g := staticCallee(x)
+			if g == nil || !c.IsLib(c.declared(g)) {
+				continue
+			}
+			for _, ret := range returnsOf(c.declared(g)) {
+				if rv, ok := returnedValue(ret, 0); ok {
+					if _, isMap := rv.Type().Underlying().(*types.Map); isMap {
+						if isNilConst(rv) {
+							continue // an explicit `return nil` of a helper: whether that path is feasible for this caller is not decided here
+						}
+						if d, bad := c.mayBeNilMap(rv, depth+1, seen); bad {
+							return d + " (returned by " + c.fname(c.declared(g)) + ")", true
+						}
+					}
+				}
+			}
+		}
+	}
+	return "", false
+}
+
+// PANIC4: no assignment into a map that may be nil. Every m[k] = v in the
+// library writes into a map made in the same function, or into one whose every
+// source (through parameters, helper results and the results of criteria
+// visitors) is a made map, or is guarded by a nil test.
+func rulePANIC4(c *Ctx) []Ob {
+	o := newObs(c, "PANIC4")
+	for _, fn := range c.LibFuncs {
+		n := 0
+		for _, b := range fn.Blocks {
+			for _, in := range b.Instrs {
+				mu, ok := in.(*ssa.MapUpdate)
+				if !ok {
+					continue
+				}
+				n++
+				key := fmt.Sprintf("%s/map assignment #%d", c.fname(fn), n)
+				pos := relPath(c, mu.Pos())
+				d, bad := c.mayBeNilMap(mu.Map, 0, map[ssa.Value]bool{})
+				if !bad {
+					o.add(OK, key, pos, "the map written is made before it is written (no nil source found)")
+					continue
+				}
+				if guardedBy(fn, b, nonNilEdges(fn, func(x ssa.Value) bool { return x == mu.Map || sameOrigin(x, mu.Map) })) {
+					o.add(OK, key, pos, "guarded by a nil test of the map")
+					continue
+				}
+				o.add(VIOLATED, key, pos, "the map assigned to may be %s: assignment to an entry of a nil map panics", d)
+			}
+		}
 	}
 	return o.list
 }
